@@ -2,6 +2,7 @@ package rules
 
 import (
 	"fmt"
+	"go/token"
 	"go/types"
 	"sort"
 	"strings"
@@ -160,6 +161,11 @@ func reachesSafePosition(p *load.Program, start *ssa.Parameter, exposed map[stri
 				walk(x.(ssa.Value), depth+1)
 			case *ssa.UnOp:
 				walk(x, depth+1)
+			case *ssa.BinOp:
+				// string concatenation: the text is still there, as part of a longer plain string
+				if x.Op == token.ADD && isStringType(x.Type()) {
+					walk(x, depth+1)
+				}
 			case *ssa.Store:
 				if x.Val != v {
 					continue
@@ -230,21 +236,37 @@ func reachesSafePosition(p *load.Program, start *ssa.Parameter, exposed map[stri
 				if q := load.FnPkg(callee); q != nil {
 					pk = q.Path()
 				}
-				if pk == "fmt" || pk == "strings" {
+				if pk == "fmt" || pk == "strings" || pk == "strconv" {
 					trail = append(trail, "formatted by "+pk+"."+callee.Name()+" in "+load.FnName(x.Parent())+" (the result is a plain, unsafe string)")
 					if val, ok := x.(ssa.Value); ok && sx.IsNamed(val.Type(), load.ModPath+"/domains", "Domain") {
 						walk(val, depth+1)
 					}
-					// Domain(fmt.Sprintf(...)) conversion keeps the declared-safe type
+					// Domain(fmt.Sprintf(...)) / Domain(prefix + strconv.Quote(...)): the conversion to the declared-safe
+					// type, possibly after concatenations, keeps the contract
 					if val, ok := x.(ssa.Value); ok {
-						for _, r2 := range *val.Referrers() {
-							if cv, ok := r2.(*ssa.ChangeType); ok && sx.IsNamed(cv.Type(), load.ModPath+"/domains", "Domain") {
-								walk(cv, depth+1)
+						var toDomain func(w ssa.Value, d int)
+						toDomain = func(w ssa.Value, d int) {
+							if d > 4 || w.Referrers() == nil {
+								return
 							}
-							if cv, ok := r2.(*ssa.Convert); ok && sx.IsNamed(cv.Type(), load.ModPath+"/domains", "Domain") {
-								walk(cv, depth+1)
+							for _, r2 := range *w.Referrers() {
+								switch cv := r2.(type) {
+								case *ssa.ChangeType:
+									if sx.IsNamed(cv.Type(), load.ModPath+"/domains", "Domain") {
+										walk(cv, depth+1)
+									}
+								case *ssa.Convert:
+									if sx.IsNamed(cv.Type(), load.ModPath+"/domains", "Domain") {
+										walk(cv, depth+1)
+									}
+								case *ssa.BinOp:
+									if cv.Op == token.ADD {
+										toDomain(cv, d+1)
+									}
+								}
 							}
 						}
+						toDomain(val, 0)
 					}
 				}
 			case *ssa.Return:
